@@ -162,6 +162,15 @@ def b_merge(ctx):
                        np.allclose(d["npk2d"], wantI[6]) and (d["spot3d_id"] == np.arange(nlab)).all())
                 if not okm and len(fails) < 5:
                     fails.append(dict(name="pk2dmerge weighted means differ", npk=npk, nlab=nlab, threads=nthreads, scale=scale is not None))
+                # the table of the 2D peaks themselves (pk2d): positions are quotients of the sums, omega / dty come from the frame, the
+                # intensity carries the frame's scale factor
+                d2 = pr.pks_table.pk2d(t, omega, dty, scale_factor=scale)
+                ok2 = (np.allclose(d2["s_raw"], pkp_f[2] / pkp_f[1]) and np.allclose(d2["f_raw"], pkp_f[3] / pkp_f[1]) and
+                       np.allclose(d2["omega"], omega.flat[pk_int]) and np.allclose(d2["dty"], dty.flat[pk_int]) and
+                       np.allclose(d2["sum_intensity"], pkp_f[1] * scI) and np.allclose(d2["Number_of_pixels"], pkp_f[0]) and
+                       np.array_equal(d2["spot3d_id"], labels))
+                if not ok2 and len(fails) < 5:
+                    fails.append(dict(name="pk2d table differs from the per-peak definition", npk=npk, nlab=nlab, threads=nthreads, scale=scale is not None))
         if len(samples) < 3:
             samples.append(dict(npk=npk, nlabels=nlab))
     numba.set_num_threads(nmax)
